@@ -33,9 +33,11 @@ const (
 	MsgLeaf    // static type implementing proto.Message
 	CustomLeaf // static type implementing the gogo-style custom interface
 	RawLeaf    // proto.RawMessage: a Message whose Marshal copies without looking at the room it is given
+	BoxLeaf    // a Message that is a struct whose only field is a pointer (pointer-shaped in an interface)
+	BoxCustom  // the same implementing the gogo-style custom interface
 )
 
-var kindNames = [...]string{"bool", "int", "int32", "int64", "uint", "uint32", "uint64", "float32", "float64", "string", "[]byte", "[N]byte", "struct", "MsgLeaf", "CustomLeaf", "RawMessage"}
+var kindNames = [...]string{"bool", "int", "int32", "int64", "uint", "uint32", "uint64", "float32", "float64", "string", "[]byte", "[N]byte", "struct", "MsgLeaf", "CustomLeaf", "RawMessage", "LeafBox", "LeafBoxCustom"}
 
 // Wrap says how the element is wrapped in the Go field type.
 type Wrap int
@@ -143,6 +145,67 @@ func (m *LeafMsg) Unmarshal(b []byte) error {
 	return nil
 }
 
+// LeafBox is a Message whose Go representation is a single pointer: stored in an
+// interface, its data word is that pointer, not the address of a LeafBox.
+type LeafPayload struct {
+	Next *LeafPayload // first word: what a misread LeafBox would take for its pointer
+	Data []byte
+}
+
+type LeafBox struct{ P *LeafPayload }
+
+func (m LeafBox) Size() int {
+	if m.P == nil {
+		return 0
+	}
+	return len(m.P.Data)
+}
+func (m LeafBox) Marshal(b []byte) error {
+	if m.P == nil {
+		return nil
+	}
+	if len(b) < len(m.P.Data) {
+		return fmt.Errorf("LeafBox.Marshal: %w", io.ErrShortBuffer)
+	}
+	copy(b, m.P.Data)
+	return nil
+}
+func (m *LeafBox) Unmarshal(b []byte) error {
+	if len(b) == 0 {
+		m.P = nil
+		return nil
+	}
+	m.P = &LeafPayload{Data: append([]byte{}, b...)}
+	return nil
+}
+
+// LeafBoxCustom is the same shape implementing the gogo-style custom interface.
+type LeafBoxCustom struct{ P *LeafPayload }
+
+func (m LeafBoxCustom) Size() int {
+	if m.P == nil {
+		return 0
+	}
+	return len(m.P.Data)
+}
+func (m LeafBoxCustom) MarshalTo(b []byte) (int, error) {
+	if m.P == nil {
+		return 0, nil
+	}
+	if len(b) < len(m.P.Data) {
+		return 0, fmt.Errorf("LeafBoxCustom.MarshalTo: %w", io.ErrShortBuffer)
+	}
+	return copy(b, m.P.Data), nil
+}
+func (m *LeafBoxCustom) Unmarshal(b []byte) error {
+	if len(b) == 0 {
+		m.P = nil
+		return nil
+	}
+	m.P = &LeafPayload{Data: append([]byte{}, b...)}
+	return nil
+}
+
 // LeafCustom implements the gogo-style custom interface.
 type LeafCustom struct{ Data []byte }
 
@@ -214,6 +277,10 @@ func kindType(k Kind, n int) reflect.Type {
 		return reflect.TypeOf(LeafCustom{})
 	case RawLeaf:
 		return reflect.TypeOf(segproto.RawMessage(nil))
+	case BoxLeaf:
+		return reflect.TypeOf(LeafBox{})
+	case BoxCustom:
+		return reflect.TypeOf(LeafBoxCustom{})
 	}
 	panic("kindType")
 }
@@ -400,7 +467,7 @@ func (m *Msg) HasMap() bool {
 // HasLeaf reports whether m contains user-supplied marshalling methods.
 func (m *Msg) HasLeaf() bool {
 	for _, f := range m.Fields {
-		if f.Elem.Kind == MsgLeaf || f.Elem.Kind == CustomLeaf || f.Elem.Kind == RawLeaf {
+		if f.Elem.Kind == MsgLeaf || f.Elem.Kind == CustomLeaf || f.Elem.Kind == RawLeaf || f.Elem.Kind == BoxLeaf || f.Elem.Kind == BoxCustom {
 			return true
 		}
 		if f.Elem.Kind == Message && f.Elem.Msg.HasLeaf() {
@@ -480,7 +547,7 @@ func Palette(size int) []Field {
 			p = append(p, fld(inner[0], w), fld(inner[2], w), fld(inner[3], w))
 		}
 		p = append(p, fld(inner[1], Plain), fld(inner[1], Ptr), fld(inner[4], Slice), fld(inner[6], Plain), fld(inner[11], Ptr),
-			fld(sc(MsgLeaf), Plain), fld(sc(CustomLeaf), Ptr), fld(arr(8), Plain), fld(enc(Int32, "zigzag32"), Slice), fld(sc(RawLeaf), Plain))
+			fld(sc(MsgLeaf), Plain), fld(sc(CustomLeaf), Ptr), fld(arr(8), Plain), fld(enc(Int32, "zigzag32"), Slice), fld(sc(RawLeaf), Plain), fld(sc(BoxLeaf), Plain))
 	default:
 		for _, e := range baseScalars {
 			p = append(p, fld(e, Plain))
@@ -525,6 +592,9 @@ func Palette(size int) []Field {
 			if w != SlicePtr {
 				p = append(p, fld(sc(RawLeaf), w))
 			}
+			if w == Plain || w == Ptr || w == Slice {
+				p = append(p, fld(sc(BoxLeaf), w), fld(sc(BoxCustom), w))
+			}
 		}
 	}
 	return p
@@ -560,7 +630,7 @@ func EnumMsg(c *explore.Ctx, o Options) *Msg {
 	m := &Msg{}
 	for i := 0; i < nf; i++ {
 		f := pal[c.Choose(len(pal))]
-		if o.NoLeaf && (f.Elem.Kind == MsgLeaf || f.Elem.Kind == CustomLeaf || f.Elem.Kind == RawLeaf) {
+		if o.NoLeaf && (f.Elem.Kind == MsgLeaf || f.Elem.Kind == CustomLeaf || f.Elem.Kind == RawLeaf || f.Elem.Kind == BoxLeaf || f.Elem.Kind == BoxCustom) {
 			f = pal[0]
 		}
 		m.Fields = append(m.Fields, f)
@@ -628,6 +698,10 @@ func scalarDomain(e Elem, thorough bool) []any {
 		return []any{LeafMsg{Data: []byte{8, 1}}, LeafMsg{}, LeafMsg{Data: []byte{}}, LeafMsg{Data: make([]byte, 130)}}
 	case CustomLeaf:
 		return []any{LeafCustom{Data: []byte{8, 1}}, LeafCustom{}, LeafCustom{Data: []byte{0}}, LeafCustom{Data: make([]byte, 130)}}
+	case BoxLeaf:
+		return []any{LeafBox{&LeafPayload{Data: []byte{8, 1}}}, LeafBox{}, LeafBox{&LeafPayload{Data: make([]byte, 130)}}}
+	case BoxCustom:
+		return []any{LeafBoxCustom{&LeafPayload{Data: []byte{8, 1}}}, LeafBoxCustom{}, LeafBoxCustom{&LeafPayload{Data: make([]byte, 130)}}}
 	case RawLeaf:
 		return []any{segproto.RawMessage{8, 1}, segproto.RawMessage(nil), segproto.RawMessage{0x12, 1, 0x61, 8, 2}, segproto.RawMessage(make([]byte, 130))}
 	}
